@@ -287,7 +287,9 @@ def c02(h, res, ref):
             tgt = {e["path"]: e for e in po.get("tree", [])}.get(absname(c["name2"]))
             if tgt is not None and tgt["kind"] == "d":
                 break
-        if r["out"] != q["out"]:
+        if (r["out"] in ("ok", "eof")) != (q["out"] in ("ok", "eof")):
+            # the property: a call succeeds or fails exactly when the reference does (which error a failing call reports
+            # is not part of it: e.g. a rename into the own subtree below a missing directory is EINVAL here, ENOENT there)
             out.append(dict(i=r["i"], kind="outcome-differs", detail=[c["op"], r["out"], q["out"], r.get("err", "")[:80]]))
             # after an outcome difference the two trees legitimately diverge: stop comparing this history
             break
